@@ -21,9 +21,19 @@ ACCESSORS = ["mem_a", "mem_u", "mem_u_unpriv"]
 VERS = [5, 6, 7]
 
 
+def data_for(tier):
+    if tier == "quick":
+        return DATA
+    # thorough: additionally every walking 1 and every walking 0 of the access width
+    return {n: DATA[n] + [1 << i for i in range(8 * n)] + [((1 << (8 * n)) - 1) ^ (1 << i) for i in range(8 * n)]
+            for n in DATA}
+
+
 def plan(tier):
-    shards = [("direct", v, acc) for v in VERS for acc in ACCESSORS] + [("instr", v, s) for v in (6, 7) for s in ("arm", "thumb")] + \
-             [("fetch", v, None) for v in (6, 7)]
+    bgs = (0,) if tier == "quick" else (0, 1)
+    shards = [("direct", v, acc, tier, bg) for v in VERS for acc in ACCESSORS for bg in bgs] + \
+             [("instr", v, s, tier, 0) for v in (6, 7) for s in ("arm", "thumb")] + \
+             [("fetch", v, None, tier, 0) for v in (6, 7)]
     return {
         "shards": shards,
         "rule": "every (accessor, get/set, size, base+offset 0..7, CPSR.E, SCTLR.A, SCTLR.U, arch version, mode, data) "
@@ -33,6 +43,8 @@ def plan(tier):
                 "instruction fetch with E=0/1",
         "bounds": {"bases": [hex(b) for b in BASES], "offsets": "0..7", "sizes": [1, 2, 4, 8], "versions": VERS,
                    "modes": ["usr", "svc"], "data": {k: [hex(x) for x in v] for k, v in DATA.items()},
+                   "data_thorough": "the above + every walking 1 and walking 0 of the access width; surrounding memory: "
+                                    "the byte pattern and its complement" if tier != "quick" else "-",
                    "memory": "position-dependent byte pattern in 4 small RAMs (one ending at 2^32); MPU off"},
         "exhaustive": True,
         "assumptions": ["MPU disabled (flat mapping); protection is C14/C15",
@@ -53,13 +65,18 @@ def model_mem(snapmem):
 
 
 def run_shard(arg):
-    kind, ver, sub = arg
+    kind, ver, sub, tier, bg = arg
     res = Result()
     cpu, plan = setup(ver)
     regs = cpu.registers
+    if bg:
+        for mc in cpu.mem.memories:
+            arr = mc.mem.memory_array
+            for i in range(len(arr)):
+                arr[i] ^= 0xFF
     base = plan.snapshot()
     if kind == "direct":
-        direct(res, cpu, plan, base, ver, sub)
+        direct(res, cpu, plan, base, ver, sub, data_for(tier))
     elif kind == "instr":
         instr(res, cpu, plan, base, ver, sub == "thumb")
     else:
@@ -67,7 +84,7 @@ def run_shard(arg):
     return res.as_dict()
 
 
-def direct(res, cpu, plan, base, ver, acc):
+def direct(res, cpu, plan, base, ver, acc, DATA=DATA):
     from armulator.armv6.arm_exceptions import DataAbortException
     regs = cpu.registers
     getf = getattr(cpu, acc + "_get")
